@@ -24,6 +24,10 @@ RULE = (
     "document / data byte unchanged (tracked by marker files). Non-trivial and distinct = distinct (shape, damage) "
     "pairs that actually changed the parsed value or broke the file."
 )
+RULE += (
+    " " + 'Added later: every accessor asked again, also on a pickle round trip / copy / deepcopy of the refused handle; a session attempting update_cache twice over the damage; repair() given a one-shot iterator; single- and multi-job damage cases alternate.'
+    " In every third case DEBUG logging is effective for the package."
+)
 ASSUMPTIONS = [
     "Recoverable = id present in the persistent cache, or the file parses to a mapping whose hash names a free directory.",
     "Two swapped directories without a cache are not recoverable by this definition (correct names are occupied).",
